@@ -261,6 +261,9 @@ def check_flows(ctx, dct, wr, pr, rp, num=2):
                 kn, fnv = (x.id for x in fl[0].target.elts)
                 g = cfg_of(tr, subst_env=False)
                 sets = [n for n in ast.walk(fl[0]) if isinstance(n, ast.Assign) and norm.is_name(n.targets[0], nm) and norm.is_name(n.value, kn)]
+                if kn == nm:
+                    # the scan variable itself is the name: it keeps the registered key where the scan is left with `break`
+                    sets = [n for b_ in fl[0].body for n in ast.walk(b_) if isinstance(n, ast.Break) and enclosing_loop_any(n, tr.node) is fl[0]]
                 okeq = bool(sets) and all(norm.entails(g.facts_at(n), norm.mk_cmp("==", fnv, f"{segn}.scaling_func")) for n in sets)
                 # the row is reached only through such an assignment: every other way (no name found) ends in the refusal — whether that is
                 # written as `if name is None: raise` after the scan or as the scan's `else: raise`
@@ -404,6 +407,15 @@ def check_refusals(ctx, num=5):
     ok = any(norm.entails(gs.facts_at(r), ("cmp", "notin", "cpu_scaling", "Segment.SCALING_FUNCS")) and norm.entails(gs.facts_at(r), ("truth", "callable(cpu_scaling)", False)) for r in rs)
     ctx.ob(num, "K2", "an unknown scaling law is refused when the segment is created", ok, si, rs[0] if rs else si.node, construct="refusal: unknown scaling law",
            detail=f"{len(rs)} raise(s) in Segment.__init__")
+
+
+def enclosing_loop_any(n, root):
+    p_ = parent(n)
+    while p_ is not None and p_ is not root:
+        if isinstance(p_, (ast.For, ast.While)):
+            return p_
+        p_ = parent(p_)
+    return None
 
 
 def check_writer_ids(ctx, num=2):
